@@ -90,6 +90,8 @@ def generate(seed, tier="quick"):
         # preferring the call sites inside prior.py.
         op = {"id": 0, "op": "rejection_by_count", "data": 0, "N": rnd.randint(4, 12), "source": "object", "in_memory": False,
               "kw": {"n_linear_samples": 1, "n_batches": rnd.choice([1, 2]), "return_logprobs": rnd.random() < 0.7}}
+    if op.get("source") == "file" and rnd.random() < 0.08:
+        cfg["joker_tempfile_path_rel"] = "jokertmp"  # see Trialer: user file kept inside the sampler's tempfile_path
     pk = rnd.random()
     if pk < 0.3:
         cfg["pool"] = {"kind": "serial"}
@@ -136,6 +138,8 @@ def thin(trace, seed, mode):
 
 
 def _sha(path):
+    if not os.path.exists(path):
+        return None  # the file is gone
     h = hashlib.sha256()
     with open(path, "rb") as f:
         h.update(f.read())
@@ -191,7 +195,20 @@ class Trialer:
         self.op = program["ops"][0]
         self.tmp_names = []
         self._patch_tempfile()
-        if self.op.get("source") == "file":
+        if self.op.get("source") == "file" and program["config"].get("joker_tempfile_path_rel"):
+            # HISTORY: the sampler's tempfile_path does not exist yet; a first call with the library as an object;
+            # then the user creates that directory and keeps the library file THERE; the workload samples from it.
+            jp = self.dep.make_joker(self.dep.make_pool({"kind": "serial"}), recgen.make(3, self.dep.record))
+            try:
+                jp.marginal_ln_likelihood(self.w.datasets[0], self.w.libraries[0].samples)
+            except Exception:  # noqa: BLE001
+                pass
+            d = os.path.join(self.dep.workdir, program["config"]["joker_tempfile_path_rel"])
+            os.makedirs(d, exist_ok=True)
+            self.user_file = self.w.libraries[0].write(os.path.join(d, "lib0.hdf5"))
+            self.user_sha = _sha(self.user_file)
+            del self.tmp_names[:]
+        elif self.op.get("source") == "file":
             self.user_file = self.w.library_file(0)
             self.user_sha = _sha(self.user_file)
         else:
